@@ -29,7 +29,9 @@ LEMMAS_ITER = [
      "levels) are proved in Lean over rose trees: " + driver.lean_status("L5_restricted_traversals.lean") + "; " +
      driver.lean_status("L34_orders.lean") + ". The correspondence between the Lean definitions and the SMT spec functions "
      "(same equations, written twice) is by review plus the bounded validation of the spec functions against the admitted-set "
-     "reading (harness/specfns.py); the level-order variant of L5 is covered by that bounded validation only."},
+     "reading (harness/specfns.py). Level order: LEVELG = one group per level that has an admitted node, each the admitted and "
+     "filtered nodes of that level in order, LEVEL = its concatenation, a permutation of the restricted pre-order - " +
+     driver.lean_status("L5_level_order.lean") + "."},
 ]
 
 
